@@ -200,6 +200,12 @@ def _entries(ir):
     return [(n, p, False) for n, p in ir["params"]] + ([("return_type", ir["returns"], True)] if ir["returns"] else [])
 
 
+def empty_breaks(kinds_here, typ):
+    """where an empty-string default is still treated as absent (truthiness tests) after fix ee47c47: the class and
+    argparse emitters, unless the declared type is plain `str` (whose zero value it is)"""
+    return typ != "str" and any(k in ("class", "argparse") for k in kinds_here)
+
+
 def optional_prose(p):
     """`_set_name_and_type`: prose starting with "(Optional)" / "Optional" makes the parsers wrap the type"""
     d, t = p.get("doc") or "", p.get("typ")
@@ -405,7 +411,7 @@ class AstKindProp(Prop):
             d = p.get("default")
             if is_code(d) and self.code_breaks(c, is_ret, p.get("typ"), d["v"]):
                 out.append(("AST-code-default", {n: {"default", "typ"} | ({"prose"} if _dotted_first(d["v"]) else set())}, set()))
-            if d is not None and d["t"] == "str" and (d["v"] == "" or _dotted_first("```" + d["v"] + "```")):
+            if d is not None and d["t"] == "str" and ((d["v"] == "" and empty_breaks(kinds_here, p.get("typ"))) or _dotted_first("```" + d["v"] + "```")):
                 out.append(("AST-empty-or-dotted-string-default", {n: F["AST-empty-or-dotted-string-default"]}, set()))
             if d is not None and "efaults" in (p.get("doc") or "") and not G.has_own_default_sentence(p):
                 out.append(("C17-D9-prose-mentions-defaults", {n: F["C17-D9-prose-mentions-defaults"]}, set()))
